@@ -67,7 +67,14 @@ inductive NOp
   | xGetC (d s k : Nat)
   | aPushV (d s : Nat)      -- V[d].toArray().append(V[s])
   | aGetV (d s k : Nat)     -- V[d] = ((const Variant&)V[s]).toArray()[k]
+  -- the String inside a Variant box as a REAL handle (embedded slot 0 of a box of kind `tagVStrN`), cross-kind sharing:
+  | vSetS (d s : Nat)       -- V[d] = S[s]                       (operator=(const String&) with a String VARIABLE: the inner String shares its data)
+  | sFromV (d s : Nat)      -- S[d] = ((const Variant&)V[s]).toString()   (the returned String shares the data of the inner String)
+  | vAppS (d : Nat) (bytes : List Nat)   -- V[d].toString().append(bytes): in-place write THROUGH the embedded handle, guarded twice
 deriving Repr
+
+/-- a string box whose String is an embedded handle (slot 0) to a String data block; its own content is empty -/
+def tagVStrN : Nat := 16
 
 
 def blkOfTag (st : St) (d tag : Nat) : Option Nat :=
@@ -141,6 +148,36 @@ def preN (st : St) (tid : Nat) : NOp → List Act
     if d = s ∨ isNoneH st s = true then [.move d d] else [.readRef d (blkTag st d == some tagVArr)]
   | .aGetV d s k => getEmb st tid d s k tagVArr true
   | .xGetC d s k => getEmb st tid d s k tagXElem false
+  | .vSetS d _ => [.readRef d (blkTag st d == some tagVStrN)]
+  | .vAppS d _ => [.readRef d (blkTag st d == some tagVStrN)]
+  | .sFromV d s =>
+    -- `String tmp = v.toString()` (copy of the inner String: one increment), `S[d] = tmp`, `~tmp`
+    match blkOfTag st s tagVStrN with
+    | some c => if (st.slots (embSlotK c 0)).isBlk then [.incE (tmpU tid) c 0 s] ++ shareAssign tid d (tmpU tid) ++ rel (tmpU tid) else rel d
+    | none => rel d
+
+/-- copy construction of the String inside the fresh box c' (held through the own slot w) from the String variable s -/
+def innerFromVar (st : St) (tid c' w s : Nat) : List Act :=
+  match st.slots s with
+  | .blk _ => [.inc (tmpU tid) s, .putE c' 0 (tmpU tid) w]
+  | .none => []
+  | .inl _ val => [.alloc (tmpU tid) tagStr val (st.capTab siteCopy val.length), .putE c' 0 (tmpU tid) w]
+
+/-- `String::operator=` on the String inside box c, by the thread that holds the ONLY handle of c (through its slot d): the
+    embedded handle is taken out, released and replaced -/
+def innerAssign (st : St) (tid c d s : Nat) : List Act :=
+  match st.slots s with
+  | .blk _ => [.inc (tmpT tid) s, .takeE (tmpU tid) c 0 d, .dec (tmpU tid), .free, .clr (tmpU tid), .putE c 0 (tmpT tid) d]
+  | _ => [.takeE (tmpU tid) c 0 d, .dec (tmpU tid), .free, .clr (tmpU tid),
+          .alloc (tmpT tid) tagStr (viewVal st s) (st.capTab siteAssign (viewVal st s).length), .putE c 0 (tmpT tid) d]
+
+/-- bytes of the String inside a nested string box -/
+def innerVal (st : St) (c : Nat) : List Nat := viewVal st (embSlotK c 0)
+
+def innerSole (st : St) (c : Nat) : Bool :=
+  match st.slots (embSlotK c 0) with
+  | .blk b => (match st.heap b with | some blk => blk.ref == 1 | none => false)
+  | _ => false
 
 /-- release all embedded handles of block c (the sole owner, through its slot d): `List::clear()` of an in-place
     `operator=(const List&)` -/
@@ -173,6 +210,36 @@ def postN (st : St) (tid : Nat) : NOp → List Act
   | .vGetV .. => []
   | .xGetC .. => []
   | .aGetV .. => []
+  | .sFromV .. => []
+  | .vSetS d s =>
+    if isWriting st tid then
+      match blkOfTag st d tagVStrN with
+      | some c => [.write []] ++ innerAssign st tid c d s         -- `*(String*)(data + 1) = other` through the embedded handle
+      | none => [.write (viewVal st d)]
+    else [.dec d, .free, .alloc d tagVStrN [] 0] ++ innerFromVar st tid st.next d s
+  | .vAppS d bytes =>
+    if isWriting st tid then
+      match blkOfTag st d tagVStrN with
+      | some c =>
+        -- sole owner of the box: the String inside is reached through the embedded handle (taken into a scratch slot and put
+        -- back: nobody else can reach the box); `append` = `detach` on it: in place only if the String data has one handle too
+        [.write [], .takeE (tmpU tid) c 0 d] ++
+          (if innerSole st c then [.readRef (tmpU tid) true, .write (innerVal st c ++ bytes)]
+           else [.alloc (tmpT tid) tagStr (innerVal st c ++ bytes) (st.capTab siteDetach (innerVal st c ++ bytes).length),
+                 .dec (tmpU tid), .free, .move (tmpU tid) (tmpT tid)]) ++
+          [.putE c 0 (tmpU tid) d]
+      | none => [.write (viewVal st d)]
+    else match blkOfTag st d tagVStrN with
+      | some c =>
+        -- shared box: clone the box (copy of the String inside: one increment), release the old one (it survives: it was shared),
+        -- then detach the String inside the new box (its data now has at least two handles: cloned)
+        [.alloc (tmpT tid) tagVStrN [] 0, .incE (tmpU tid) c 0 d, .putE st.next 0 (tmpU tid) (tmpT tid), .dec d, .free,
+         .move d (tmpT tid), .takeE (tmpU tid) st.next 0 d,
+         .alloc (tmpT tid) tagStr (innerVal st c ++ bytes) (st.capTab siteDetach (innerVal st c ++ bytes).length),
+         .dec (tmpU tid), .free, .move (tmpU tid) (tmpT tid), .putE st.next 0 (tmpU tid) d]
+      | none =>
+        [.alloc (tmpT tid) tagVStrN [] 0, .dec d, .free, .move d (tmpT tid),
+         .alloc (tmpU tid) tagStr bytes (st.capTab siteCtor bytes.length), .putE st.next 0 (tmpU tid) d]
 
 /-- single-threaded semantics of one call, with the destructor cascade -/
 def apiStepN (st : St) (tid : Nat) (op : NOp) : Option St :=
